@@ -3,7 +3,7 @@
     models: C03/C03_Model.v over the catalogue C05/C05_Model.v; N blocks from Gen/rot_gen.v (regenerated from Rotation.h). *)
 From Coq Require Import ZArith Reals List.
 From Coquelicot Require Import Coquelicot.
-Require Import Num Vec rot_gen C28_Defs C28_Proofs Tree C05_Model C05_Rot C05_Jet C05_Proofs C05_Wave2 C03_Model C03_Proofs.
+Require Import Num Vec rot_gen C28_Defs C28_Proofs Tree MB Spatial C05_Model C05_Rot C05_Jet C05_Proofs C05_Wave2 C03_Model C03_Proofs.
 Local Open Scope R_scope.
 
 Theorem C03_vel_step_is_compose X0 XPF F0 XMB VGP VFM : is_rot (m33_mul ROps (fst X0) (fst XPF)) ->
@@ -19,6 +19,18 @@ Theorem C03_step_jet XGP VGP XPF XFM XMB VFM :
   moves_with (fun t => pose_step ROps (XGP t) XPF (XFM t) XMB) (vel_step ROps (XGP 0) VGP XPF (XFM 0) XMB VFM).
 Proof. exact (step_jet XGP VGP XPF XFM XMB VFM). Qed.
 Print Assumptions C03_step_jet.
+
+Theorem C03_toG_linear X0 XPF F0 XMB H u :
+  toG X0 XPF F0 XMB (Hu ROps H u) = MB.Hmul (svK ROps) (map (toG X0 XPF F0 XMB) H) u.
+Proof. exact (toG_linear X0 XPF F0 XMB H u). Qed.
+Print Assumptions C03_toG_linear.
+
+Theorem C03_vel_step_is_MB_recursion X0 VGP XPF F0 XMB H u :
+  vel_step ROps X0 VGP XPF F0 XMB (Hu ROps H u) =
+  MB.vadd (svK ROps) (MB.phiT (svK ROps) (v3_sub ROps (snd (pose_step ROps X0 XPF F0 XMB)) (snd X0)) VGP)
+                     (MB.Hmul (svK ROps) (map (toG X0 XPF F0 XMB) H) u).
+Proof. exact (vel_step_is_MB_recursion X0 VGP XPF F0 XMB H u). Qed.
+Print Assumptions C03_vel_step_is_MB_recursion.
 
 Theorem C03_compose_jet (t : tree gjoint) (base : PV) : pose_ok base ->
   List.Forall (fun jb => pose_ok (snd jb)) (flatten (tkin base t)).
